@@ -67,8 +67,7 @@ Definition push (m : pm) (tk : token) (t : ttype) : pm :=
 (* create_invite: a fresh OwnedInvite row (id = inv) registered under the invitation's token *)
 Definition create_invite (m : pm) (inv : N) : pm := push m (TkInvite inv) (TOwned inv).
 
-(* (in the database the sys.Invite row is written BEFORE the table is looked at: see dstep)
-   accept_invite: the bytes must deserialize and name this application; an invitation that is already
+(* accept_invite: the bytes must deserialize and name this application; an invitation that is already
    in the table (accepted before, or created by this instance) is not registered again (fix 1e2cdf6) *)
 Inductive invite_bytes := Garbage | InviteFor (inv : N) (app : N) (signer : option key).
 Definition is_owned (inv : N) (t : ttype) : bool := match t with TOwned i => N.eqb i inv | _ => false end.
@@ -239,6 +238,10 @@ Definition dstep (me_key : key) (s : sys) (o : dop) : sys * N * N :=
   | DAccept b =>
       match accept_invite m b, b with
       | Some m', InviteFor inv a sg =>
+          (* fix 4354588: an invitation the table already knows is not stored either; otherwise the
+             sys.Invite row is written unless it exists *)
+          if existsb (registered inv) (pm_tokens m) then (s, 1, 0)
+          else
           ({| sy_pm := m'; sy_next := sy_next s; sy_db_owned := sy_db_owned s;
               sy_db_invites := if existsb (fun x => N.eqb (fst (fst x)) inv) (sy_db_invites s) then sy_db_invites s
                                else sy_db_invites s ++ [(inv, a, sg)];
